@@ -17,6 +17,8 @@ import (
 	"log"
 	"net/http"
 	"net/http/httptest"
+	"os"
+	"runtime"
 	"sort"
 	"strings"
 	"sync"
@@ -27,6 +29,7 @@ import (
 	"git.torproject.org/pluggable-transports/snowflake.git/v2/common/amp"
 	"git.torproject.org/pluggable-transports/snowflake.git/v2/common/messages"
 	"github.com/prometheus/client_golang/prometheus/promhttp"
+	"verif.local/vstat"
 	dto "github.com/prometheus/client_model/go"
 )
 
@@ -411,8 +414,44 @@ func gather(ctx *BrokerContext) map[string]float64 {
 // runScenario executes the scenario once. ctx must have been created OUTSIDE the
 // bubble (its metrics goroutine holds a 24 h real ticker). settle is how long the
 // fake clock is advanced after the last event.
+// wedgeUnit is the unit to blame when a scenario wedges (set by each test function).
+var wedgeUnit *vstat.Unit
+
+// watchdog: a goroutine that waits for a sync.Mutex is not "durably blocked", so a
+// lock-held deadlock inside the bubble freezes the fake clock instead of being reported.
+// A real-time goroutine OUTSIDE the bubble turns a scenario that makes no progress for 30 s
+// of real time (scenarios take milliseconds) into a failure with the broker's stacks.
+func watchdog(sc *scenario) (stop func()) {
+	done := make(chan struct{})
+	go func() {
+		select {
+		case <-done:
+		case <-time.After(30 * time.Second):
+			buf := make([]byte, 1<<21)
+			buf = buf[:runtime.Stack(buf, true)]
+			var rel []string
+			for _, g := range strings.Split(string(buf), "\n\n") {
+				if (strings.Contains(g, "/broker.(*") || strings.Contains(g, "/broker.proxy") || strings.Contains(g, "/broker.client")) && strings.Contains(g, "sync.(*Mutex).Lock") || strings.Contains(g, "chan send") && strings.Contains(g, "/broker.(*IPC)") {
+					rel = append(rel, g)
+				}
+			}
+			st := strings.Join(rel, "\n\n")
+			if len(st) > 5000 {
+				st = st[:5000]
+			}
+			if wedgeUnit != nil {
+				fmt.Println(wedgeUnit.Fail(sc, "scenario made no progress for 30 s of real time on the fake clock: a request is blocked while holding (or waiting for) the broker's lock, so no request can complete any more. Goroutines:\n%s", st))
+				wedgeUnit.Flush()
+			}
+			os.Exit(1)
+		}
+	}()
+	return func() { close(done) }
+}
+
 func runScenario(t *testing.T, ctx *BrokerContext, sc *scenario, extra func(ctx *BrokerContext, mux http.Handler)) (h *history) {
 	h = &history{Sc: sc, Res: make([]result, len(sc.Events))}
+	defer watchdog(sc)()
 	var mu sync.Mutex
 	func() {
 		defer func() {
